@@ -44,3 +44,12 @@ void c01_chan_edges(void *chan, c01_edge_fn fn, void *u) {
     for (int32_t k = 0, i = c->items.head; k < n; k++, i = (i + 1 == c->items.capacity) ? 0 : i + 1)
         fn(u, d[i], i < c->items.head ? "channel.item.wrapped" : "channel.item");
 }
+
+/* (head, tail, capacity, number of occupied slots) of a channel's three rings, for the model's ring-walk interpreter */
+void c01_chan_rings(void *chan, int32_t out[12]) {
+    JanetChannel *c = chan;
+    JanetQueue *qs[3] = { &c->items, &c->read_pending, &c->write_pending };
+    for (int k = 0; k < 3; k++) {
+        out[4 * k] = qs[k]->head; out[4 * k + 1] = qs[k]->tail; out[4 * k + 2] = qs[k]->capacity; out[4 * k + 3] = janet_q_count(qs[k]);
+    }
+}
